@@ -43,7 +43,8 @@ func MakeFromRequest(r *http.Request) CacheKey {
 		scheme = "https"
 	}
 	normHost := strings.ToLower(r.Host)
-	normPath := normalizePath(r.URL.Path)
+	// The escaped path is what is sent upstream: "/a%2Fb" and "/a/b" are different resources there.
+	normPath := normalizePath(r.URL.EscapedPath())
 	// Every component is prefixed with its length: a '|' inside a component (e.g. "/a|b?c" vs
 	// "/a?b|c") must not be able to shift the component boundaries and alias two requests.
 	stringKey := fmt.Sprintf("%s|%d:%s|%d:%s|%d:%s|%d:%s", scheme,
